@@ -151,6 +151,15 @@ int main(int argc, char **argv)
         { uint8_t pt[16]; size_t ml = 0; if (api_aead_dec[arg](pt, &ml, out, 25, in, L, nonce, key) != 0) hx_fail(kb, "genuine packet with %zu bytes of associated data rejected", L);
           if (L > 0xffffffffu && api_aead_dec[arg](pt, &ml, out, 25, in, L & 0xffffffffu, nonce, key) == 0) hx_fail(kb, "packet accepted under the first %zu of %zu bytes of associated data", L & 0xffffffffu, L);
           if (api_aead_dec[arg](pt, &ml, out, 25, in, L - 1, nonce, key) == 0) hx_fail(kb, "packet accepted under %zu of %zu bytes of associated data", L - 1, L); }
+    } else if (!strcmp(what, "masked-ad")) {
+        uint8_t out[64], pt[16]; size_t ml = 0; api_masked_key mk; api_masked_key_init(arg, &mk, key);
+        api_masked_enc[arg](out, &cl, in, 9, in, L, nonce, &mk);
+        long long bad = aead_check(arg, 0, key, nonce, L, 9, out, tag);
+        if (bad >= 0) hx_fail(kb, "masked output differs from the specification for %zu bytes of associated data", L);
+        if (api_masked_dec[arg](pt, &ml, out, 25, in, L, nonce, &mk) != 0) hx_fail(kb, "masked decryption rejects the genuine packet with %zu bytes of associated data", L);
+        if (L > 0xffffffffu && api_masked_dec[arg](pt, &ml, out, 25, in, L & 0xffffffffu, nonce, &mk) == 0) hx_fail(kb, "masked decryption accepts the packet under the first %zu of %zu bytes of associated data", L & 0xffffffffu, L);
+        if (api_masked_dec[arg](pt, &ml, out, 25, in, L - 1, nonce, &mk) == 0) hx_fail(kb, "masked decryption accepts the packet under %zu of %zu bytes of associated data", L - 1, L);
+        api_masked_key_free(arg, &mk);
     } else if (!strcmp(what, "siv-ad")) {
         uint8_t out[64], pt[16]; size_t ml = 0; api_siv_enc[arg](out, &cl, in, 9, in, L, nonce, key);
         siv_tag(arg, key, nonce, L, 9, tag);
@@ -197,8 +206,18 @@ int main(int argc, char **argv)
         union { ascon_hash_state_t h; ascon_hasha_state_t ha; } st; memset(o, 0, 32);
         if (arg) { ascon_hasha_init(&st.ha); ascon_hasha_update(&st.ha, in, 3); ascon_hasha_update(&st.ha, in + 3, L - 3); ascon_hasha_finalize(&st.ha, o); } else { ascon_hash_init(&st.h); ascon_hash_update(&st.h, in, 3); ascon_hash_update(&st.h, in + 3, L - 3); ascon_hash_finalize(&st.h, o); }
         if (memcmp(o, e, 32)) hx_fail(kb, "incremental digest (3 + %zu bytes) differs from the specification", L - 3);
+        if (L > 0xffffffffu) {   /* a pending partial block of c bytes, then ONE call of 2^32 + d bytes with d smaller than what the block still lacks (the low 32 bits alone would fit) */
+            size_t c = 3, n2 = ((size_t)1 << 32) + 2; memset(o, 0, 32);
+            if (arg) { ascon_hasha_init(&st.ha); ascon_hasha_update(&st.ha, in, c); ascon_hasha_update(&st.ha, in + c, n2); ascon_hasha_finalize(&st.ha, o); } else { ascon_hash_init(&st.h); ascon_hash_update(&st.h, in, c); ascon_hash_update(&st.h, in + c, n2); ascon_hash_finalize(&st.h, o); }
+            hash_ref(arg, 1, c + n2, e, 32); if (memcmp(o, e, 32)) hx_fail(kb, "incremental digest (%zu + %zu bytes) differs from the specification", c, n2);
+        }
     } else if (!strcmp(what, "xof-in")) {
         uint8_t o[40], e[40]; union { ascon_xof_state_t x; ascon_xofa_state_t xa; } st;
+        if (L > 0xffffffffu) {
+            size_t c = 7, n2 = ((size_t)1 << 32);
+            if (arg) { ascon_xofa_init(&st.xa); ascon_xofa_absorb(&st.xa, in, c); ascon_xofa_absorb(&st.xa, in + c, n2); ascon_xofa_squeeze(&st.xa, o, 40); } else { ascon_xof_init(&st.x); ascon_xof_absorb(&st.x, in, c); ascon_xof_absorb(&st.x, in + c, n2); ascon_xof_squeeze(&st.x, o, 40); }
+            hash_ref(arg, 0, c + n2, e, 40); if (memcmp(o, e, 40)) hx_fail(kb, "XOF of %zu + %zu bytes (two calls) differs from the specification", c, n2);
+        }
         if (arg) { ascon_xofa_init(&st.xa); ascon_xofa_absorb(&st.xa, in, L); ascon_xofa_squeeze(&st.xa, o, 40); } else { ascon_xof_init(&st.x); ascon_xof_absorb(&st.x, in, L); ascon_xof_squeeze(&st.x, o, 40); }
         hash_ref(arg, 0, L, e, 40); if (memcmp(o, e, 40)) hx_fail(kb, "XOF of a %zu-byte message differs from the specification", L);
     } else if (!strcmp(what, "xof-out")) {
